@@ -539,8 +539,18 @@ func CondSignal(c *sync.Cond) {
 	}
 	e := condFind(unsafe.Pointer(c))
 	if e.n > 0 {
-		w := e.waiters[0]
-		copy(e.waiters[:], e.waiters[1:e.n])
+		// Which waiter a Signal wakes is not specified ("wakes one goroutine waiting on c"). The runtime
+		// happens to wake the oldest; the simulator does so in half of the processes and picks one from
+		// the signalling task's seeded stream in the other half.
+		i := 0
+		if e.n > 1 && (cfg.Seed>>9)&1 == 1 {
+			if t.mapRng == 0 {
+				t.mapRng = (cfg.Seed+uint64(idx(t))+7)*0x94d049bb133111eb | 1
+			}
+			i = int(xorshift(&t.mapRng) % uint64(e.n))
+		}
+		w := e.waiters[i]
+		copy(e.waiters[i:], e.waiters[i+1:e.n])
 		e.n--
 		tasks[w].condWait = false
 		tasks[w].state = tsRunnable
